@@ -6,7 +6,8 @@ Every translated `cached_property` P of WrappedField becomes
 over the annotation grammar `ty` of Diagram/Ty.v, in the result monad (Ok v | Raise exn) so that Python's
 short-circuit evaluation and the exceptions the predicates can raise are kept.  Library calls are translated
 only through the fixed idiom table below (get_origin, get_args, `in`, `is`, `==`, len, [0], issubclass(_, enum.Enum),
-hasattr(_, "__iter__"), `.__module__ == "builtins"`, all(<genexp>), try/except IndexError); anything else is refused
+hasattr(_, "__iter__"), `.__module__ == "builtins"`, all(<genexp>), next(x for x in get_args(..) if <test>),
+try/except IndexError); anything else is refused
 with file:line.  The idioms' meaning on the grammar is Diagram/Ty.v (trusted, validated every run by executing
 both sides on every annotation of the grammar up to depth 2).
 """
@@ -35,7 +36,7 @@ TY_NAMES = {"int": "(Builtin BInt)", "float": "(Builtin BFloat)", "str": "(Built
             "datetime": "(Builtin BDatetime)", "NoneType": "(Builtin BNoneType)"}
 ORIGIN_NAMES = {"Union": "OUnion", "Optional": "OOptional", "list": "OList", "set": "OSet", "tuple": "OTuple",
                 "type": "OType", "Sequence": "OSeq"}
-EXCEPTIONS = ["TypeError", "ValueError", "IndexError", "AttributeError", "MissingContainedTypeOfContainer"]
+EXCEPTIONS = ["TypeError", "ValueError", "IndexError", "AttributeError", "MissingContainedTypeOfContainer", "StopIteration"]
 COQ_TY = {"bool": "bool", "ty": "ty", "origin": "origin", "tys": "list ty", "origins": "list origin", "nat": "nat"}
 
 E = Tuple[str, str, bool]  # gallina term, type tag, monadic (term : res T) or pure (term : T)
@@ -248,6 +249,23 @@ class Tr:
                 if body[1] != "bool":
                     raise Refuse(e, "all(...) of non-booleans", fn)
                 return self.bindn([it], lambda a: (f"(mall (fun {x} => {self.lift(body)}) {a})", "bool", True))
+            if f.id == "next" and len(e.args) == 1 and isinstance(e.args[0], ast.GeneratorExp):
+                # next(x for x in <get_args ...> if <pure test on x>): first element passing the test, else StopIteration
+                g = e.args[0]
+                gen = g.generators[0] if len(g.generators) == 1 else None
+                if gen is None or gen.is_async or len(gen.ifs) != 1 or not isinstance(gen.target, ast.Name) \
+                        or not (isinstance(g.elt, ast.Name) and g.elt.id == gen.target.id):
+                    raise Refuse(e, "next(...) over a generator that is not `x for x in xs if test`", fn)
+                it = self.expr(gen.iter, env)
+                if it[1] != "tys":
+                    raise Refuse(e, "next(...) over something other than get_args", fn)
+                x = gen.target.id
+                if x in env or x in TY_NAMES or x in ORIGIN_NAMES:
+                    raise Refuse(e, f"generator variable {x} shadows a known name", fn)
+                test = self.expr(gen.ifs[0], dict(env, **{x: (x, "ty")}))
+                if test[1] != "bool" or test[2]:
+                    raise Refuse(e, "filter of next(...) is not a pure boolean test", fn)
+                return self.bindn([it], lambda a: (f"(next_where (fun {x} => {test[0]}) {a})", "ty", True))
             if f.id in self.known_funcs and len(e.args) == 1:
                 v = self.expr(e.args[0], env)
                 if v[1] != "ty":
